@@ -71,11 +71,19 @@ def lazy(rng, mode="random"):
 
 # ---- Python mirror of Model/Prng.v (used to predict rearrangements for named float statistics; it is itself
 # compared with the Gallina model in Coq on every case that uses it) ----
+class MirrorMismatch(Exception):
+    """the implementation requested fewer/other draws than the Fisher-Yates passes the design calls for"""
+
+
 def m_fy(x, ans):
     """cryptorandom fykd via random_permutation: consumes len(x) answers"""
     a = list(x); n = len(a)
+    if len(ans) < n:
+        raise MirrorMismatch()
     for i in range(n):
         J = i + ans.pop(0)
+        if J >= n:
+            raise MirrorMismatch()
         a[i], a[J] = a[J], a[i]
     return a
 
